@@ -257,7 +257,18 @@ inductive Fault where
   | failNuts
   /-- the process stops right before the k-th `Commit` call; k ≥ number of calls: before the clean-up transaction -/
   | stop (k : Nat)
+  /-- the k-th `did_change_log` write of the first transaction fails (DB error): the SQL transaction is rolled back -/
+  | logFail (k : Nat)
+  /-- the process stops at the k-th `did_change_log` write of the first transaction: the SQL transaction never commits -/
+  | logStop (k : Nat)
   deriving DecidableEq, Repr, Inhabited
+
+/-- a fault inside the first transaction, which writes `n` change records: the caller-visible result if it fires -/
+def Fault.inTx1 (f : Fault) (n : Nat) : Option String :=
+  match f with
+  | .logFail k => if k < n then some "err:injected" else Option.none
+  | .logStop k => if k < n then some "stopped" else Option.none
+  | _ => Option.none
 
 inductive Phase where
   | completed (calls : Nat)
@@ -311,8 +322,8 @@ def tx2 (cfg : Cfg) (w : World) (chs : List Change) (failed : Bool) : World :=
     | [] => w
     | ch :: _ => deleteLogTx ch.tx w
 
-/-- one operation with a fault: resulting world and the caller-visible result -/
-def stepOp (cfg : Cfg) (w : World) (o : Op) (order : List Method) (f : Fault) : World × String :=
+/-- one operation whose first transaction committed (or failed by itself): resulting world and the caller-visible result -/
+def stepOpCore (cfg : Cfg) (w : World) (o : Op) (order : List Method) (f : Fault) : World × String :=
   match tx1 cfg w o with
   | .err e => (w, "err:" ++ e)
   | .panic s => (w, "panic:" ++ s)
@@ -324,6 +335,17 @@ def stepOp (cfg : Cfg) (w : World) (o : Op) (order : List Method) (f : Fault) : 
       match f with
       | .stop k => if i ≤ k then ({ w1 with pub := pub }, "stopped") else (tx2 cfg { w1 with pub := pub } chs false, "ok")
       | _ => (tx2 cfg { w1 with pub := pub } chs false, "ok")
+
+/-- one operation with a fault. The versions AND their change records are written by ONE SQL transaction
+    (`transactionHelper`: `tx.Save(&e)` inside the `r.DB.Transaction` closure — regenerated fact): a failure or a stop
+    while the change records are being written leaves nothing behind. -/
+def stepOp (cfg : Cfg) (w : World) (o : Op) (order : List Method) (f : Fault) : World × String :=
+  match tx1 cfg w o with
+  | .ok (_, chs) =>
+    match f.inTx1 chs.length with
+    | some r => (w, r)
+    | none => stepOpCore cfg w o order f
+  | _ => stepOpCore cfg w o order f
 
 /-- `IsCommitted` -/
 def isCommitted (cfg : Cfg) (pub : Nat → List Content) (ch : Change) : Res Bool :=
